@@ -41,10 +41,32 @@ def reference(text, L, G):
         return {"exc": type(e).__name__, "G": ser(G2)}
 
 
+def reference_same(text, M):
+    """locals is globals: the text as the body of a function whose globals are the mapping itself"""
+    import keyword
+    first = text.splitlines()[0] if text else ""
+    declared = [n.strip() for n in first[len("global "):].split(",")] if first.startswith("global ") else []
+    args = [k for k in M if k.isidentifier() and not keyword.iskeyword(k) and k != "__debug__" and k not in declared]
+    src = "def __ref__(%s):\n%s\n    return locals()" % (", ".join(args), "\n".join("    " + l for l in text.splitlines()) or "    pass")
+    ns = {}
+    G2 = dict(M)
+    exec(src, G2, ns)
+    try:
+        res = ns["__ref__"](**{k: M[k] for k in args})
+        for k in M:
+            if k not in args and k in G2:
+                res.setdefault(k, G2[k])          # handed back with the value the mapping has in the end
+        return {"result": ser(res), "G": ser(G2)}
+    except Exception as e:
+        return {"exc": type(e).__name__, "G": ser(G2)}
+
+
 def run_case(c):
     t = Obs.instance() if c["tracer"] == "obs" else pyc.NoopTracer.instance()
     L, G = dict(c["L"]), dict(c["G"])
-    out = {"ref": reference(c["text"], c["L"], c["G"])}
+    if c.get("same"):
+        G = L
+    out = {"ref": reference_same(c["text"], c["L"]) if c.get("same") else reference(c["text"], c["L"], c["G"])}
     try:
         if c["tracer"] == "obs":
             with t.tracing_enabled():
